@@ -25,8 +25,9 @@ CLAIMED = {
             "the expected parts (path/input, BTC payload layout with unsigned tx and extra data, receipt, proof "
             "framing) from the request independently of the model's encoders and checks prefix/order/"
             "completeness and success-iff-consumed-and-DER on the implementation's APDU trace.",
-            "the converse 'every part consumed and device success => reply successful' is decided by "
-            "correspondence + oracle; python-bitcoinlib is represented by the shim"),
+            "the theorems are about the model of sign_authorized / sign_unauthorized and the chunked transfer; the "
+            "reply's JSON fields and the transaction clearing before relaying are C13's / C14's; python-bitcoinlib is "
+            "represented by the shim"),
     "C02": ("Lean theorems: non-objects get the format error; everything the generic gate or a command's validator "
             "refuses is answered with that code with no event at all in every world (rejected_no_contact); "
             "accepted requests are handed to the operation; udValue/keyId validators agree with the documented "
@@ -295,8 +296,9 @@ CLAIMED = {
             "the six documented paths (Spec.C18.filesOk).",
             "'when the preconditions hold the operation is carried out' is a theorem for onboarding on a Ledger "
             "(onboard_carried_out: exact message sequence - the random source's 32 seed bytes, the length-prefixed "
-            "PIN, the wipe - and a normal end); for unlock / change-PIN / public keys, the change-PIN mode preconditions "
-            "and the public-key output it is decided by the exhaustive grid (correspondence + oracle); seed "
+            "PIN, the wipe - and a normal end); for unlock / change-PIN / public keys 'carried out' and the change-PIN "
+            "mode preconditions are decided by the exhaustive grid with faults at every exchange (correspondence + "
+            "oracle: unlock acknowledged => the command ends normally; output files whole); seed "
             "freshness (that os.urandom is random) is not a theorem"),
     "C19": ("Lean theorems about ledgerblue's Intel-HEX parser as used by compute_app_hash: for every file the "
             "parser accepts, the areas it returns are sorted by start address (sorted insertion invariant, by "
